@@ -1,13 +1,38 @@
-"""C06 - rculfhash add_unique: correspondence of the unique-scan model with src/rculfhash.c + duplicate/one-winner oracle."""
+"""C06 - unique adds, atomic replace: proofs (Lfht/FlagProto.v: single ownership among del / replace / add_replace for every interleaving; LfhtSeq/SeqTable.v: unique keys under the
+unique-type operations, sequentially); refinement check of the accesses to every node's next word in real rculfhash.c traces against the extracted ownership protocol, with the API-level
+successes; oracles on concurrent add_unique / add_replace / replace / del / lookup / duplicate-walk / traversal scenarios (one winner, key never duplicated in any walk, key never absent while replaced)."""
 from vlib import *
 import lfht_common as L
+import lfhtx_common as X
 PROGS = ['U0L0/U2L0/L0L0', 'U0U1/U2U5/L0XL0', 'U0L0X/U2L0X/L0L0', 'U3L3/U6L3X/L3XL3', 'U4/U7/L4XL4X', 'U0A1/U2L1/L0XL0X']
+XPROGS = ['U0L0N/U2L0N/U7L0NT', 'U0L0P2/L0NL0X/R7TL0N', 'R0R2/R7L0N/L0NTL0N', 'U0L0X/L0P2/L0P7T', 'U3U5L3P6/L3NL5X/TL3NT', 'U0Z2L0P2/U4L0NZ1/R7TL4N', 'U0L0P2/L0L0L0/L0L0T']
+def key_never_absent(prog, raw):
+    """a key continuously present while it is being replaced is found by every concurrent lookup: programs whose only removals are replacements of a key inserted before the lookups began"""
+    ev = X.events(raw); hist, _, _ = X.history(ev)
+    removed_keys = set()
+    for x in hist:
+        if x[1] == 'del' and x[3] == '0': removed_keys.add(X.keyof(x[2]))
+    first_in = {}
+    for x in hist:
+        if x[1] in ('add', 'addu', 'addr') and x[5] is not None and (x[1] != 'addu' or x[3] == x[2]):
+            k = X.keyof(x[2]); first_in[k] = min(first_in.get(k, 10 ** 9), x[5])
+    for x in hist:
+        if x[1] == 'lookup' and x[3] == '0' and x[2] not in removed_keys and x[2] in first_in and first_in[x[2]] < x[4]:
+            return 'lookup of key %d by thread %s (events %d-%d) found nothing although the key was inserted before and is only ever replaced, never deleted' % (x[2], x[0], x[4], x[5])
+    return None
 def run(ctx):
     ctx.cov['source_hash'] = source_hash(L.FILES)
     prove(ctx)
     impl, model = L.build(ctx)
     if impl:
-        cases = L.gen(ctx, PROGS, 400 if ctx.quick() else 5000, 'C06')
+        cases = L.gen(ctx, PROGS, 300 if ctx.quick() else 5000, 'C06')
         corr_schedules(ctx, 'Lfht.v vs src/rculfhash.c', impl, model, cases, L.canon_c, oracle=L.oracle, nontrivial=L.contended, tail='012345' * 200, scenario='scen_lfht')
-    return finish(ctx, trusted=L.TRUSTED, rule='corpus + parking sweeps + bursty schedules of concurrent add_unique on equal keys (entries 0/2, 3/6, 4/7 share a key) with lookups and dels')
-replay = L.replay
+    ximpl = X.build(ctx)
+    fdriver = build_model_driver(ctx, 'flagproto', 'ExtractFlagProto.v', 'flagproto_driver.ml')
+    if ximpl:
+        X.run_cases(ctx, 'unique adds / replace', ximpl, X.gen(ctx, XPROGS, 400 if ctx.quick() else 6000, 'C06x', [('2', '8', 'o'), ('1', '8', 'o'), ('4', '8', 'c')]), flag_driver=fdriver, extra_oracle=key_never_absent)
+    return finish(ctx, trusted=L.TRUSTED + ['extraction of FlagProto: ExtrOcamlBasic only; ocaml/flagproto_driver.ml; projection tools/lfhtx_common.py project_flags() (trusted)',
+                  'modelled by FlagProto: the flag bits and ownership successes of one next word (pointer changes abstracted to "link" accesses); traversal-level uniqueness under concurrency is an oracle, the theorem is sequential'],
+                  rule='corpus + parking sweeps + bursty schedules of concurrent add_unique / add_replace / replace / del / lookup + next_duplicate / traversal on keys shared by three entries, with resizes')
+def replay(ctx, rp):
+    return X.replay(ctx, rp) if (rp.get('failing_input') or {}).get('scenario') == 'scen_lfhtx' else L.replay(ctx, rp)
